@@ -95,6 +95,10 @@ class Oracle:
     # pointer invariant
     if prio == 0 or prio & (prio - 1) or prio > mask:
       bad.append(('pointer-not-onehot', f'priority_reg.out={prio:#b}'))
+      # the pointer-independent clauses still apply
+      if g & (g - 1): bad.append(('grants-not-onehot0', f'grants={g:#b}'))
+      if g & ~q: bad.append(('grants-not-subset', f'grants={g:#b} reqs={q:#b}'))
+      if (g != 0) != (q != 0): bad.append(('grants-nonzero-iff', f'grants={g:#b} reqs={q:#b}'))
       return bad
     p = prio.bit_length() - 1
     if g & ~mask: bad.append(('grants-width', f'grants={g:#b}'))
@@ -182,10 +186,14 @@ def random_history(rng, has_en, n, length):
 
 # ----------------------------------------------------------------------------- evaluation
 
-def evaluate(ck, has_en, n, hist, model, impl, tag):
+def evaluate(ck, has_en, n, hist, model, impl, tag, ctx=None):
   """oracle on the implementation first, then model vs implementation; returns (#violations, #disagreements)"""
   orc = Oracle(has_en, n)
   nv = nd = 0
+  def case(t):
+    c = {'hasEn': has_en, 'n': n, 'hist': hist[:t + 1]}
+    if ctx: c['many'] = ctx
+    return c
   for t, ((r, e, q), row) in enumerate(zip(hist, impl)):
     prio, g, pe, nxt = row[:4]
     armed = orc.armed
@@ -199,14 +207,13 @@ def evaluate(ck, has_en, n, hist, model, impl, tag):
     for kind, text in bad:
       nv += 1
       if nv <= 3:
-        ck.violation(kind, {'check': kind, 'variant': VARIANT[has_en]},
-                     {'hasEn': has_en, 'n': n, 'hist': hist[:t + 1]},
+        ck.violation(kind, {'check': kind, 'variant': VARIANT[has_en]}, case(t),
                      {'cycle': t, 'what': text, 'impl_cycle': row, 'model_cycle': model[t] if t < len(model) else None,
                       'oracle': 'direct restatement of C19 on reqs/en/grants/priority_reg.out', 'part': tag})
     if not bad and (t >= len(model) or model[t] != row[:4]):
       nd += 1
       if nd <= 1:
-        ck.disagreement('Model/Arb.trace≈' + VARIANT[has_en], {'hasEn': has_en, 'n': n, 'hist': hist[:t + 1]},
+        ck.disagreement('Model/Arb.trace≈' + VARIANT[has_en], case(t),
                         model[t] if t < len(model) else None, row[:4])
   return nv, nd
 
@@ -218,6 +225,8 @@ def process(ck, items, tag, factory=make):
     impl = run_real(has_en, n, hist, factory=factory)
     ck.hist('variant', VARIANT[has_en], len(hist)); ck.hist('nreqs', n, len(hist)); ck.hist('part', tag, len(hist))
     evaluate(ck, has_en, n, hist, model, impl, tag)
+
+N1_OK = set()     # variants for which a one-requester instance could be built in this process
 
 def degenerate(ck, factory, when):
   """nreqs = 1, both classes.  The property speaks about two or more requesters; the clean tree rejects nreqs = 1 at
@@ -232,6 +241,7 @@ def degenerate(ck, factory, when):
     except Exception as e:
       ck.hist('nreqs=1 ' + when, f'{VARIANT[has_en]}: rejected ({type(e).__name__})')
       continue
+    N1_OK.add(has_en)
     hist = [[1, 0, 0]] + [[int(rng.random() < 0.05), rng.randint(0, 1) if has_en else 0, rng.randint(0, 1)] for _ in range(40)]
     model = parse_trace(ck.drv('arb').batch([model_line(has_en, 1, hist, s0=1)])[0])
     if hasattr(m, 'priority_reg'):
@@ -256,6 +266,155 @@ def degenerate(ck, factory, when):
       if model[t][1] != g:
         ck.disagreement('Model/Arb.trace(n=1)≈' + VARIANT[has_en], {'hasEn': has_en, 'n': 1, 'hist': hist[:t + 1]}, model[t], [1, g])
         break
+
+# ----------------------------------------------------------------------------- many arbiters in one top, every pass group
+
+TOP_SRC = """
+from pymtl3 import *
+from pymtl3.stdlib.basic_rtl.arbiters import RoundRobinArbiter, RoundRobinArbiterEn
+
+class C19GrantMux( Component ):
+  # switch-style use of a grant vector: the granted input's data goes to the output
+  def construct( s, n ):
+    s.sel = InPort( mk_bits( n ) )
+    s.in_ = [ InPort( Bits8 ) for _ in range( n ) ]
+    s.out = OutPort( Bits8 )
+    @update
+    def up_grant_mux():
+      s.out @= 0
+      for i in range( n ):
+        if s.sel[i]:
+          s.out @= s.in_[i]
+
+class C19ManyArbTop( Component ):
+  # spec: list of (has_en, nreqs, with_mux); one arbiter per entry, own reqs/en/grants ports
+  def construct( s, spec ):
+    maxn = max( n for _, n, _ in spec )
+    s.reqs   = [ InPort ( mk_bits( n ) ) for _, n, _ in spec ]
+    s.en     = [ InPort () for _ in spec ]
+    s.grants = [ OutPort( mk_bits( n ) ) for _, n, _ in spec ]
+    s.data   = [ InPort ( Bits8 ) for _ in range( maxn ) ]
+    s.out    = [ OutPort( Bits8 ) for _ in spec ]
+    s.arbs   = [ ( RoundRobinArbiterEn if h else RoundRobinArbiter )( n ) for h, n, _ in spec ]
+    s.muxes  = [ C19GrantMux( n ) for _, n, x in spec if x ]
+    k = 0
+    for j, ( h, n, x ) in enumerate( spec ):
+      s.arbs[j].reqs   //= s.reqs[j]
+      s.arbs[j].grants //= s.grants[j]
+      if h: s.arbs[j].en //= s.en[j]
+      if x:
+        s.muxes[k].sel //= s.arbs[j].grants
+        for i in range( n ): s.muxes[k].in_[i] //= s.data[i]
+        s.muxes[k].out //= s.out[j]
+        k += 1
+"""
+
+FLOWS = ['default', 'simplesim', 'unroll', 'heutopo', 'mamba']
+_top_mod = [None]
+
+def top_module(workdir):
+  if _top_mod[0] is None:
+    import importlib, os, sys
+    name = f'c19_manytop_{os.getpid()}'
+    with open(os.path.join(workdir, name + '.py'), 'w') as f: f.write(TOP_SRC)
+    if workdir not in sys.path: sys.path.insert(0, workdir)
+    _top_mod[0] = importlib.import_module(name)
+  return _top_mod[0]
+
+def build_top(workdir, spec, flow):
+  from pymtl3.passes.PassGroups import SimpleSimPass
+  from pymtl3.passes.mamba.PassGroups import HeuTopoUnrollSim, Mamba2020, UnrollSim
+  top = top_module(workdir).C19ManyArbTop([tuple(x) for x in spec])
+  top.elaborate()
+  if flow == 'default': top.apply(DefaultPassGroup())
+  elif flow == 'simplesim': top.apply(SimpleSimPass())
+  elif flow == 'unroll': top.apply(UnrollSim(print_line_trace=False))
+  elif flow == 'heutopo': top.apply(HeuTopoUnrollSim(print_line_trace=False))
+  elif flow == 'mamba': top.apply(Mamba2020(print_line_trace=False))
+  else: raise ValueError(flow)
+  return top
+
+def gen_many(rng, quick):
+  """spec + one global reset stream + independent (en, reqs) streams + data words"""
+  k = rng.randint(7, 16) if rng.random() < 0.85 else rng.randint(2, 6)
+  sizes = [2, 3, 4, 4, 5, 8] if quick else [2, 3, 4, 4, 5, 6, 8, 9, 16]
+  spec = []
+  for j in range(k):
+    h = rng.randint(0, 1)
+    n = 1 if (h in N1_OK and rng.random() < 0.15) else rng.choice(sizes)
+    spec.append([h, n, int(rng.random() < 0.4)])
+  length = rng.randint(50, 80) if quick else rng.randint(80, 200)
+  resets = [0] * length
+  start = rng.choice([0, 0, 0, rng.randint(1, 4)])        # sometimes traffic before the first reset
+  resets[start] = 1
+  for _ in range(rng.randint(1, 3)):                      # reset pulses in the middle of the traffic
+    t = rng.randint(length // 4, length - 5)
+    for u in range(t, min(length, t + rng.randint(1, 2))): resets[u] = 1
+  streams = []
+  for h, n, _ in spec:
+    hist = random_history(rng, h, n, length + 8)[-length:]
+    streams.append([[c[1], c[2]] for c in hist])
+  data = [[rng.getrandbits(8) for _ in range(max(n for _, n, _ in spec))] for _ in range(length)]
+  return {'spec': spec, 'resets': resets, 'streams': streams, 'data': data}
+
+def run_many_real(workdir, many, flow):
+  """per arbiter: rows (prio, grants, priority_en, next); plus mux violations [(arb, cycle, text)]"""
+  spec, resets, streams, data = many['spec'], many['resets'], many['streams'], many['data']
+  top = build_top(workdir, spec, flow)
+  rows = [[] for _ in spec]
+  muxbad = []
+  for t, r in enumerate(resets):
+    top.reset @= r
+    for i, d in enumerate(data[t]): top.data[i] @= d
+    for j, (h, n, x) in enumerate(spec):
+      top.reqs[j] @= streams[j][t][1]
+      if h: top.en[j] @= streams[j][t][0]
+    top.sim_eval_combinational()
+    cur = []
+    for j, (h, n, x) in enumerate(spec):
+      a = top.arbs[j]
+      g = int(top.grants[j])
+      if hasattr(a, 'priority_reg'): cur.append([int(a.priority_reg.out), g, int(a.priority_en)])
+      else: cur.append([1, g, int(g != 0 and (not h or streams[j][t][0]))])     # one requester, no register: pointer trivial
+      if x:
+        want = data[t][g.bit_length() - 1] if g and not g & (g - 1) and g.bit_length() <= n else 0
+        if g and not g & (g - 1) and int(top.out[j]) != want:
+          muxbad.append((j, t, f'mux out={int(top.out[j])} for grants={g:#b}, data={data[t][:n]}'))
+    top.sim_tick()
+    for j, (h, n, x) in enumerate(spec):
+      a = top.arbs[j]
+      cur[j].append(int(a.priority_reg.out) if hasattr(a, 'priority_reg') else 1)
+      rows[j].append(cur[j])
+  return rows, muxbad
+
+def many_arbiters(ck, ntops):
+  rng = ck.rng
+  cycles = 0
+  for _ in range(ntops):
+    many = gen_many(rng, ck.tier == 'quick')
+    spec = many['spec']
+    hists = [[[r, e, q] for r, (e, q) in zip(many['resets'], st)] for st in many['streams']]
+    s0 = [1 if (n == 1) else 0 for _, n, _ in spec]     # a register-less one-requester arbiter: pointer trivially at input 0
+    replies = ck.drv('arb').batch([model_line(h, n, hist, s0=z) for (h, n, _), hist, z in zip(spec, hists, s0)])
+    models = [parse_trace(r) for r in replies]
+    ck.hist('many: arbiters per top', len(spec))
+    for flow in FLOWS:
+      rows, muxbad = run_many_real(ck.workdir, many, flow)
+      for j, (h, n, x) in enumerate(spec):
+        ctx = {'flow': flow, 'index': j, 'spec': spec, 'resets': many['resets'], 'streams': many['streams'], 'data': many['data']}
+        ck.hist('variant', VARIANT[h], len(hists[j])); ck.hist('nreqs', n, len(hists[j])); ck.hist('part', 'many:' + flow, len(hists[j]))
+        model = models[j]
+        if n == 1 and s0[j] == 1:
+          # the register-less instance has no reset: compare grants only (model row with the pointer held at input 0)
+          model = [[1, m[1], m[2] if not many['resets'][t] else rows[j][t][2], 1] for t, m in enumerate(model)]
+        evaluate(ck, h, n, hists[j], model, rows[j], 'many:' + flow, ctx)
+        cycles += len(hists[j])
+      for j, t, text in muxbad[:3]:
+        ck.disagreement('grant-driven mux in C19ManyArbTop (' + flow + ')',
+                        {'hasEn': spec[j][0], 'n': spec[j][1], 'hist': hists[j][:t + 1],
+                         'many': {'flow': flow, 'index': j, 'spec': spec, 'resets': many['resets'], 'streams': many['streams'], 'data': many['data']}},
+                        'out = data[granted input]', text)
+  return cycles
 
 def exhaustive(ck, nmax, factory=make):
   situations = 0
@@ -299,6 +458,11 @@ def run(ck, factory=make):
   process(ck, [(h, n, random_history(rng, h, n, 60)) for h, n, _ in first], 'random', factory)
   situations = exhaustive(ck, nmax, factory)
   degenerate(ck, factory, 'after larger sizes')
+  ntops = 3 if quick else 12
+  mc = many_arbiters(ck, ntops)
+  ck.extra_cov['many_arbiters_part'] = (f'{ntops} generated tops (mostly 7-16 arbiters of both variants, mixed nreqs, some grants feeding a mux), '
+                                        f'independent req/en streams, shared reset with pulses in mid-traffic, each simulated under '
+                                        f'{FLOWS}: {mc} arbiter-cycles, every arbiter against the model and the direct oracle')
   ck.extra_cov['exhaustive_part'] = (f'both variants, nreqs 2..{nmax}: every pointer position x request vector x en x reset, '
                                      f'pointer steered through the ports: {situations} test cycles; internal wires kills/'
                                      f'grants_int/priority_reg.in_ compared for every (nreqs, reqs, pointer)')
